@@ -397,13 +397,13 @@ Proof.
   inversion H; inversion H'; subst. cbn. repeat split; reflexivity.
 Qed.
 
-(* byte(): eager agrees with position().byte, lazy ignores the initial byte counter *)
+(* byte(): eager and lazy both agree with position().byte (lazy: after the repair /repo e0cf8e4) *)
 Lemma eager_byte_is_position_byte : forall e inp k, (k <= length (idata inp))%nat ->
   eager_byte e inp k = Some (pbyte (lazy_position e inp k)).
 Proof. intros e inp k Hk. unfold eager_byte. rewrite eager_is_lazy by exact Hk. reflexivity. Qed.
 
-Lemma lazy_byte_vs_position_byte : forall e inp k, (k <= length (idata inp))%nat ->
-  pbyte (lazy_position e inp k) = (pbyte (iinit inp) + lazy_byte k)%N.
+Lemma lazy_byte_is_position_byte : forall e inp k, (k <= length (idata inp))%nat ->
+  pbyte (lazy_position e inp k) = lazy_byte inp k.
 Proof. intros e inp k Hk. unfold lazy_position, lazy_byte. apply track_byte. exact Hk. Qed.
 
 (* ------------------------------------------------------------------ assembled statements *)
